@@ -8,6 +8,7 @@
 -/
 import Zed.Model.SvcQueryio
 import Zed.Model.SvcDispatch
+import Zed.Model.SvcRecord
 namespace Zed.Props.C19
 open Zed.Svc
 
@@ -66,22 +67,19 @@ theorem remote_refines_local {σ α ρ ω : Type} (encode : α → ω) (decode :
     handlerRun decode guardH core (encode req) s = localRun guardL core req s := by
   simp [handlerRun, hcodec, localRun, hguard]
 
-/-- The guards do differ for CreatePool on the current tree (regenerated): direct access rejects
-    the empty pool name, the handler does not … -/
-theorem createPool_guards_differ :
-    Generated.C19.localChecksEmptyPoolName = true ∧ Generated.C19.handlerChecksEmptyPoolName = false := by
+/-- Both paths reject the empty pool name (regenerated; the handler's check was added by the
+    repair 4479a0e7f), so the guard hypothesis of `remote_refines_local` holds for CreatePool. -/
+theorem createPool_guards_agree :
+    Generated.C19.localChecksEmptyPoolName = true ∧ Generated.C19.handlerChecksEmptyPoolName = true := by
   decide
 
-/-- … so the refinement fails for CreatePool: with the guards the two paths have, some request
-    is rejected by one path and changes the state on the other. -/
-theorem not_remote_refines_local_createPool :
+/-- The defect repaired by 4479a0e7f, kept as a theorem about the model: when only direct
+    access checks for the empty pool name, some request is rejected by one path and changes the
+    state on the other. -/
+theorem not_remote_refines_local_when_handler_lacks_guard :
     ¬ ∀ (core : String → List String → Outcome (List String) Unit) (name : String) (s : List String),
-        handlerRun (some : String → Option String)
-            (fun n => if Generated.C19.handlerChecksEmptyPoolName && n == "" then some "no pool name provided" else none)
-            core name s =
-          localRun
-            (fun n => if Generated.C19.localChecksEmptyPoolName && n == "" then some "no pool name provided" else none)
-            core name s := by
+        handlerRun (some : String → Option String) (fun _ => none) core name s =
+          localRun (fun n => if n == "" then some "no pool name provided" else none) core name s := by
   intro h
   have := h (fun n s => (.ok (), s ++ [n])) "" []
   revert this; decide
@@ -115,6 +113,70 @@ theorem not_load_refines_local :
     localLoad [.recd 1, .recd 2, .err "syntax"] [] = (.error "syntax", []) ∧
     handlerLoad [.err "syntax"] [] = (.error "empty transaction", []) ∧
     localLoad [.err "syntax"] [] = (.error "syntax", []) := by decide
+
+/-! ### The client's replay recorder (`api/client/request.go`) -/
+
+/-- `recordReader.Read` returns the count of the wrapped reader, untouched; the replay buffer
+    is 16 MiB (regenerated). -/
+theorem record_reader_facts :
+    Generated.C19.recordReaderReturnsReadCount = true ∧ Generated.C19.recordLimit = 16777216 ∧
+    Generated.C19.recordReaderRecords = "b[:cc]" := by decide
+
+private theorem recRun_forward {α : Type} (limit : Nat) (st : Recorder α) (chunks : List (List α)) :
+    (recRun true limit st chunks).2 = chunks.flatten := by
+  induction chunks generalizing st with
+  | nil => simp [recRun]
+  | cons c cs ih =>
+    simp only [recRun, List.flatten_cons]
+    rw [ih]
+    unfold recRead
+    split <;> simp
+
+/-- **record_forwards_all.**  Whatever the sizes of the reads (any chunking of any body, of any
+    length), the bytes the HTTP transport receives are exactly the bytes of the body. -/
+theorem record_forwards_all {α : Type} (chunks : List (List α)) :
+    (recRunCode chunks).2 = chunks.flatten := by
+  unfold recRunCode
+  rw [record_reader_facts.1]
+  exact recRun_forward _ _ _
+
+private theorem recRun_buf {α : Type} (fwd : Bool) (limit : Nat) (pre : List α) (nr : Bool) (chunks : List (List α)) :
+    (recRun fwd limit ⟨pre.take limit, nr⟩ chunks).1.buf = (pre ++ chunks.flatten).take limit := by
+  induction chunks generalizing pre nr with
+  | nil => simp [recRun]
+  | cons c cs ih =>
+    simp only [recRun, List.flatten_cons]
+    unfold recRead
+    by_cases h : (pre.take limit).length < limit
+    · have hp : pre.length < limit := by
+        rw [List.length_take] at h; omega
+      have e1 : pre.take limit = pre := List.take_of_length_le (by omega)
+      simp only [h, if_true]
+      have e2 : pre ++ c.take (limit - pre.length) = (pre ++ c).take limit := by
+        rw [List.take_append]
+        rw [List.take_of_length_le (by omega : pre.length ≤ limit)]
+      rw [e1, e2, ih (pre ++ c) nr, List.append_assoc]
+    · have hp : limit ≤ pre.length := by
+        rw [List.length_take] at h; omega
+      simp only [h, if_false]
+      rw [ih pre true]
+      rw [List.take_append_of_le_length hp, List.take_append_of_le_length hp]
+
+/-- **record_replay_prefix.**  The replay buffer is exactly the first `limit` bytes of the body,
+    for every chunking. -/
+theorem record_replay_prefix {α : Type} (chunks : List (List α)) :
+    (recRunCode (α := α) chunks).1.buf = chunks.flatten.take Generated.C19.recordLimit := by
+  unfold recRunCode
+  have := recRun_buf (α := α) Generated.C19.recordReaderReturnsReadCount Generated.C19.recordLimit [] false chunks
+  simpa using this
+
+/-- The seeded failure mode, as a theorem about the model: a recorder whose `Read` returns its
+    own clamped count loses the bytes of the read that crosses the limit. -/
+theorem not_record_forwards_all_when_clamped :
+    ¬ ∀ (limit : Nat) (chunks : List (List Nat)), (recRun false limit {} chunks).2 = chunks.flatten := by
+  intro h
+  have := h 4 [[1, 2, 3], [4, 5, 6], [7]]
+  revert this; decide
 
 /-! ### Framing -/
 
